@@ -47,7 +47,8 @@ def pkt(sent, sender, key, signed_pkt=None, signed_terms=None, mb="default", sb=
 MUTATIONS = ["epoch-1", "epoch+1", "epoch+5", "thr0", "thr-high", "thr-low", "timeout-past", "scheme-unknown", "scheme-other",
              "genesis+1", "seed-change", "drop-member", "unknown-remaining", "badsig-joiner", "badkey-joiner", "leader-leaving",
              "leader-joining", "no-remaining", "beaconid", "period+1", "catchup+1", "leader-clone", "member-clone",
-             "swap-join-remain", "leaver-dropped", "joiner-extra", "member-keyswap"]
+             "swap-join-remain", "leaver-dropped", "joiner-extra", "member-keyswap", "dup-member-drop", "dup-member-leave",
+             "move-remain-to-leave", "move-leave-to-remain", "clone-joiner"]
 
 
 def mutate(rng, t, kind, scheme):
@@ -104,6 +105,25 @@ def mutate(rng, t, kind, scheme):
     if kind == "member-clone":
         rep = lambda l: [9 if x == 1 else x for x in l]
         return t.copy(joining=rep(t.joining), remaining=rep(t.remaining), leaving=rep(t.leaving))
+    if kind == "dup-member-drop" and len(t.remaining) >= 3:
+        # one member named twice, another silently dropped: same count, smaller set
+        r = list(t.remaining)
+        victim = [x for x in r if x != t.leader][-1]
+        keep = [x for x in r if x != t.leader and x != victim][0]
+        return t.copy(remaining=[keep if x == victim else x for x in r])
+    if kind == "dup-member-leave" and len(t.remaining) >= 3:
+        r = list(t.remaining)
+        victim = [x for x in r if x != t.leader][-1]
+        keep = [x for x in r if x != t.leader and x != victim][0]
+        return t.copy(remaining=[x for x in r if x != victim], leaving=list(t.leaving) + [keep])
+    if kind == "move-remain-to-leave" and len(t.remaining) >= 2 and t.remaining[-1] != t.leader:
+        # the concatenation joining ++ remaining ++ leaving is unchanged, only the role boundary moves
+        return t.copy(remaining=list(t.remaining[:-1]), leaving=[t.remaining[-1]] + list(t.leaving))
+    if kind == "move-leave-to-remain" and t.leaving:
+        return t.copy(remaining=list(t.remaining) + [t.leaving[0]], leaving=list(t.leaving[1:]))
+    if kind == "clone-joiner":
+        # a self-signed joiner that reuses member 1's address with another key
+        return t.copy(joining=list(t.joining) + [9])
     if kind == "member-keyswap":
         rep = lambda l: [11 if x == 1 else x for x in l]
         return t.copy(remaining=rep(t.remaining), leaving=rep(t.leaving))
@@ -140,7 +160,7 @@ def gen_history(rng, scheme, deep=False):
             signer = 8 if m.leader == 8 else t.leader
             return pkt("proposal/" + m.tok(), m.leader, signer, signed_terms=m)
         if k < 65:   # proposal whose signature covers different terms than the ones sent
-            m = mutate(rng, t, rng.choice(MUTATIONS), scheme)
+            m = mutate(rng, t, rng.choice(MUTATIONS + ["move-remain-to-leave", "move-leave-to-remain", "seed-change", "member-keyswap"]), scheme)
             return pkt("proposal/" + m.tok(), t.leader, t.leader, signed_pkt="proposal/" + t.tok(), signed_terms=t)
         if k < 75:   # right terms, wrong signing key / wrong claimed sender
             who = rng.choice([1, 2, 3, 5, 8, 9])
@@ -183,6 +203,10 @@ def gen_history(rng, scheme, deep=False):
             t = Terms(bid="default", epoch=epoch, thr=rng.range(n // 2 + 1, n), timeout="@+3600", scheme=scheme,
                       genesis="@+100", seed=seed, catchup=rng.choice([5, 6]), period=30, leader=0,
                       joining=join, remaining=rem, leaving=leave)
+        if epoch > 1 and 1 in t.remaining and rng.chance(1, 6):
+            t = t.copy(joining=list(t.joining) + [9], thr=min(t.thr + 1, len(t.remaining) + len(t.joining) + 1))
+            n2 = len(t.remaining) + len(t.joining)
+            t = t.copy(thr=max(n2 // 2 + 1, min(t.thr, n2)))
         involved = sut in t.joining + t.remaining + t.leaving
         chance = 45 if deep else 30
         steps = []
